@@ -93,9 +93,18 @@ def run_l2(ctx, templates, n, monitor, need=(), label="engine", run_kw=None):
     ctx.programs += n
     ctx.mark(label)
     ctx.suite(label, runs=n, failures=len(fails), **facts_total)
-    for k in need:
-        k, m = (k if isinstance(k, tuple) else (k, 1))
-        ctx.require_coverage(label, k, facts_total.get(k, 0), m)
+    try:
+        for k in need:
+            k, m = (k if isinstance(k, tuple) else (k, 1))
+            ctx.require_coverage(label, k, facts_total.get(k, 0), m)
+    except Exception:
+        # the behaviour a coverage counter waits for may be exactly what the code under check no longer does: the
+        # monitor failures already collected (those not recorded as known findings) are reported before the machinery error
+        keys = ctx.known_keys()
+        other = [f for f in fails if not any(k in f["why"] for k in keys)]
+        if other:
+            report_l2(ctx, other)
+        raise
     return fails, facts_total
 
 
